@@ -402,9 +402,9 @@ pub fn run(args: &Args) -> i32 {
   let sync_cases: Vec<(bool, u64, Fake)> = vec![
     (false, 150, Fake::Never),
     (false, 150, Fake::Signal(0)),
-    (true, 150, Fake::Signal(0)),
-    (true, 150, Fake::Signal(20)),
-    (true, 240, Fake::Signal(40)),
+    (true, 600, Fake::Signal(0)),
+    (true, 600, Fake::Signal(20)),
+    (true, 800, Fake::Signal(40)),
     (true, 100, Fake::Signal(260)),
     (true, 120, Fake::Never),
     (true, 60, Fake::Never),
